@@ -14,6 +14,7 @@ model-only `stale` states) and `denote` on the serialised programs.  All answers
 """
 import concurrent.futures as cf
 import hashlib
+import zlib
 import json
 import os
 import sys
@@ -79,7 +80,8 @@ def run_shard(lines):
 
 
 def run(chk, replay=None):
-    rng = C.SplitMix(chk.seed)
+    # vlib's SplitMix streams for adjacent seeds are shifted copies of each other: spread the seeds
+    rng = C.SplitMix(chk.seed * 2654435761 + 97 * (chk.seed % 1009) + 12345)
     broken = []
     # ---- regenerate the primitive bodies, build, prove -------------------------------------------
     try:
@@ -112,7 +114,7 @@ def run(chk, replay=None):
         if os.path.isdir(cdir):
             for f in sorted(os.listdir(cdir)):
                 reqs += [l.strip() for l in open(os.path.join(cdir, f)) if l.strip() and not l.startswith("#")]
-        n = 1100 if quick else 24000
+        n = 3000 if quick else 60000
         for k in range(n):
             st = SETS[rng.below(len(SETS))] if rng.below(10) else "illtyped"
             if st == "illtyped" and rng.below(3):
@@ -123,97 +125,111 @@ def run(chk, replay=None):
             steps = rng.below(4)
             nex = rng.between(2, 5)
             reqs.append(f"scn {st} {rng.next() % 1000000007} {rows} {patch} {steps} {nex}")
-        for k in range(30 if quick else 400):
+        for k in range(60 if quick else 600):
             reqs.append(f"chain {rng.next() % 1000000007} {rng.between(2, 17)} {rng.between(2, 4)}")
 
-    answers, deaths = C.run_lines(exe, reqs, timeout=3000)
-    for idx, rc, se in deaths:
-        chk.violation("harness died (rc=%d) on request `%s`\n%s" % (rc, reqs[idx], se[-2500:]),
-                      {"request": reqs[idx], "stderr": se[-2500:]}, tags={"request": reqs[idx], "kind": "died"})
+    state = {"ndis": 0, "programs": 0}
+    found = []     # failing (program, example) pairs; the smallest programs are reported first
 
-    # ---- compare vita with the harness' own oracle (the property itself), collect the model's work --
-    work = []      # (request, prog line, runs, driver lines, run indices)
-    for q, a in zip(reqs, answers):
-        if a.startswith("died") or a.startswith("skipped"):
-            continue
-        if a.startswith("bad-op"):
-            broken.append("harness rejects request `%s`: %s" % (q, a))
-            continue
-        chk.count("set:" + q.split()[1] if q.startswith("scn") else "set:chain")
-        for prog, runs in parse_transcript(a):
-            pt = prog.split()
-            chk.count("programs")
-            chk.count("rows:%s" % ("2-8" if int(pt[1]) < 9 else "9-24" if int(pt[1]) < 25 else "25-64"))
-            chk.count("cats:" + pt[2])
-            for (kind, ex, vita, orc) in runs:
-                chk.count("run:" + kind)
-                chk.count("result:" + vita[0])
-                if orc == "skip":
-                    chk.count("oracle_skipped_big_tree")
-                elif vita != orc:
-                    chk.violation(
-                        f"vita's interpreter (mode {kind}) returned {vita}, the recursive evaluation of the active "
-                        f"expression tree gives {orc}, on example [{' '.join(ex)}] of program `{prog[:300]}…`",
-                        {"request": q, "program": prog, "kind": kind, "example": ex, "vita": vita, "tree": orc},
-                        tags={"kind": kind, "set": q.split()[1], "request": q})
-            dl, idx = driver_lines(prog, runs, rng)
-            work.append((q, prog, runs, dl, idx))
+    def process(reqs):
+        answers, deaths = C.run_lines(exe, reqs, timeout=3000)
+        for idx, rc, se in deaths:
+            chk.violation("harness died (rc=%d) on request `%s`\n%s" % (rc, reqs[idx], se[-2500:]),
+                          {"request": reqs[idx], "stderr": se[-2500:]}, tags={"request": reqs[idx], "kind": "died"})
 
-    # ---- the model ---------------------------------------------------------------------------------
-    ndis = 0
-    if drv_ok and work:
-        nsh = 8
-        shards = [[] for _ in range(nsh)]
-        for k, w in enumerate(work):
-            shards[k % nsh].append(w)
-        with cf.ThreadPoolExecutor(nsh) as ex_:
-            outs = list(ex_.map(lambda sh: run_shard([l for w in sh for l in w[3]]) if sh else [], shards))
-        for sh, out in zip(shards, outs):
-            pos = 0
-            for (q, prog, runs, dl, idx) in sh:
-                ans = out[pos:pos + len(dl)]
-                pos += len(dl)
-                head = ans[0].split() if ans else ["missing"]
-                if head[0] != "ok":
-                    broken.append("model rejects program `%s…` (%s) of request `%s`" % (prog[:200], ans[:1], q))
-                    continue
-                size = int(head[2].split("=")[1]) if len(head) > 3 else 0
-                reach = int(head[3].split("=")[1]) if len(head) > 3 else 0
-                chk.count("tree_nodes:%s" % ("1" if size <= 1 else "2-9" if size < 10 else "10-99" if size < 100 else
-                                             "100-9999" if size < 10000 else ">=10000"))
-                if size > reach:
-                    chk.count("programs_with_shared_genes")
-                for (kind, ex, _, _) in runs:
-                    chk.seen((prog, kind, tuple(ex)), nontrivial=size > 1)
-                if "wf=1" not in head:
-                    chk.count("model_says_not_wf")
-                    broken.append("a program built by vita fails the model's WF check: `%s…` request `%s`" % (prog[:200], q))
-                for (kind, ex, vita, orc), j in zip(runs, idx):
-                    m = ans[j].split() if j < len(ans) else ["missing"]
-                    if len(m) != 3:
-                        broken.append("model answer malformed: %r on `%s`" % (ans[j:j + 1], dl[j]))
+        # ---- compare vita with the harness' own oracle (the property itself), collect the model's work --
+        work = []      # (request, prog line, runs, driver lines, run indices)
+        for q, a in zip(reqs, answers):
+            if a.startswith("died") or a.startswith("skipped"):
+                continue
+            if a.startswith("bad-op"):
+                broken.append("harness rejects request `%s`: %s" % (q, a))
+                continue
+            chk.count("set:" + q.split()[1] if q.startswith("scn") else "set:chain")
+            for prog, runs in parse_transcript(a):
+                pt = prog.split()
+                chk.count("programs")
+                state["programs"] += 1
+                chk.count("rows:%s" % ("2-8" if int(pt[1]) < 9 else "9-24" if int(pt[1]) < 25 else "25-64"))
+                chk.count("cats:" + pt[2])
+                for (kind, ex, vita, orc) in runs:
+                    chk.count("run:" + kind)
+                    chk.count("result:" + vita[0])
+                    if orc == "skip":
+                        chk.count("oracle_skipped_big_tree")
+                    elif vita != orc:
+                        found.append((len(prog.split(" ; ")), len(ex), q, prog, kind, ex, vita, orc))
+                dl, idx = driver_lines(prog, runs, rng)
+                work.append((q, prog, runs, dl, idx))
+
+        # ---- the model ---------------------------------------------------------------------------------
+        if drv_ok and work:
+            nsh = 8
+            shards = [[] for _ in range(nsh)]
+            for k, w in enumerate(work):
+                shards[k % nsh].append(w)
+            with cf.ThreadPoolExecutor(nsh) as ex_:
+                outs = list(ex_.map(lambda sh: run_shard([l for w in sh for l in w[3]]) if sh else [], shards))
+            for sh, out in zip(shards, outs):
+                pos = 0
+                for (q, prog, runs, dl, idx) in sh:
+                    ans = out[pos:pos + len(dl)]
+                    pos += len(dl)
+                    head = ans[0].split() if ans else ["missing"]
+                    if head[0] != "ok":
+                        broken.append("model rejects program `%s…` (%s) of request `%s`" % (prog[:200], ans[:1], q))
                         continue
-                    mi, md, mok = m
-                    if dl[j - 1] == "stale":
-                        chk.count("model_run_from_stale_state")
-                    if md == "skip":
-                        chk.count("denote_skipped_big_tree")
-                    e1, z1 = same(mi, vita)
-                    e2, z2 = (True, False) if md == "skip" else same(md, vita)
-                    if z1 or z2:
-                        chk.count("zero_sign_only_difference")
-                    if mok != "ok=1":
-                        chk.count("model_out_of_bounds")
-                        broken.append("the model interpreter left the genome on `%s…`" % prog[:200])
-                    if not (e1 and e2):
-                        ndis += 1
-                        if ndis <= 3:
-                            broken.append(
-                                f"model and code disagree (mode {kind}): vita {vita}, tree oracle {orc}, model interpreter "
-                                f"{mi}, denote {md}; example [{' '.join(ex)}]; program `{prog[:300]}…`; request `{q}`")
-                if len(chk.cov["samples"]) < 6 and runs and (len(work) < 12 or hash(prog) % 97 == 0):
-                    chk.sample({"program": prog[:400], "run": runs[0][0], "example": runs[0][1], "vita": runs[0][2],
-                                "tree_oracle": runs[0][3], "model": ans[idx[0]] if idx and idx[0] < len(ans) else None})
+                    size = int(head[2].split("=")[1]) if len(head) > 3 else 0
+                    reach = int(head[3].split("=")[1]) if len(head) > 3 else 0
+                    chk.count("tree_nodes:%s" % ("1" if size <= 1 else "2-9" if size < 10 else "10-99" if size < 100 else
+                                                 "100-9999" if size < 10000 else ">=10000"))
+                    if size > reach:
+                        chk.count("programs_with_shared_genes")
+                    for (kind, ex, _, _) in runs:
+                        chk.seen((prog, kind, tuple(ex)), nontrivial=size > 1)
+                    if "wf=1" not in head:
+                        chk.count("model_says_not_wf")
+                        broken.append("a program built by vita fails the model's WF check: `%s…` request `%s`" % (prog[:200], q))
+                    for (kind, ex, vita, orc), j in zip(runs, idx):
+                        m = ans[j].split() if j < len(ans) else ["missing"]
+                        if len(m) != 3:
+                            broken.append("model answer malformed: %r on `%s`" % (ans[j:j + 1], dl[j]))
+                            continue
+                        mi, md, mok = m
+                        if dl[j - 1] == "stale":
+                            chk.count("model_run_from_stale_state")
+                        if md == "skip":
+                            chk.count("denote_skipped_big_tree")
+                        e1, z1 = same(mi, vita)
+                        e2, z2 = (True, False) if md == "skip" else same(md, vita)
+                        if z1 or z2:
+                            chk.count("zero_sign_only_difference")
+                        if mok != "ok=1":
+                            chk.count("model_out_of_bounds")
+                            broken.append("the model interpreter left the genome on `%s…`" % prog[:200])
+                        if not (e1 and e2):
+                            state["ndis"] += 1
+                            if state["ndis"] <= 3:
+                                broken.append(
+                                    f"model and code disagree (mode {kind}): vita {vita}, tree oracle {orc}, model interpreter "
+                                    f"{mi}, denote {md}; example [{' '.join(ex)}]; program `{prog[:300]}…`; request `{q}`")
+                    if len(chk.cov["samples"]) < 6 and runs and (len(work) < 12 or zlib.crc32(prog.encode()) % 97 == 0):
+                        chk.sample({"program": prog[:400], "run": runs[0][0], "example": runs[0][1], "vita": runs[0][2],
+                                    "tree_oracle": runs[0][3], "model": ans[idx[0]] if idx and idx[0] < len(ans) else None})
+
+    all_reqs = reqs
+    for b0 in range(0, len(all_reqs), 3000):
+        process(all_reqs[b0:b0 + 3000])
+    ndis = state["ndis"]
+    found.sort(key=lambda t: (t[0], t[1], t[3]))
+    chk.cov["failing_runs"] = len(found)
+    for (_, _, q, prog, kind, ex, vita, orc) in found[:8]:
+        chk.violation(
+            f"vita's interpreter (mode {kind}) returned {vita}, the recursive evaluation of the active "
+            f"expression tree gives {orc}, on example [{' '.join(ex)}] of program `{prog[:300]}…` "
+            f"(smallest of {len(found)} failing runs)",
+            {"request": q, "program": prog, "kind": kind, "example": ex, "vita": vita, "tree": orc},
+            tags={"kind": kind, "set": q.split()[1], "request": q})
     chk.cov["model_vs_code_disagreements"] = ndis
 
     if broken and not [v for v in chk.violations if not v[2]]:
